@@ -6,7 +6,7 @@ use crate::drive::*;
 use crate::explore::*;
 use serde_json::{Value, json};
 
-const RULE: &str = "growth inputs (unterminated tag / attribute value / comment / doctype, long tag names, nesting depth d with selectors, many chunks) at 13 sizes x handler sets x chunkings (one write, byte-wise, 7-byte and 64-byte chunks) x preallocation {0, min(16,M), M/2} x EVERY limit M from 0 to M0+64 (M0 = first limit under which the run succeeds); plus every F<=k input x schedules x every M in 0..=M0+8. Oracle: each call returns Ok or MemoryLimitExceeded (never a panic); accounted usage (hook) <= M after every successful call; bytes_in - bytes_out <= M in pass-through; success is monotone in M with identical output; same (M, config, schedule) twice gives the same result. non-trivial = distinct (case, M) where the call failed with MemoryLimitExceeded";
+const RULE: &str = "growth inputs (unterminated tag / attribute value / comment / doctype, long tag names, nesting depth d with selectors, stack grow/pop/re-grow histories followed by a buffered token, many chunks) at 13 sizes x handler sets x chunkings (one write, byte-wise, 7-byte and 64-byte chunks) x preallocation {0, min(16,M), M/2} x EVERY limit M from 0 to M0+64 (M0 = first limit under which the run succeeds); plus every F<=k input x schedules x every M in 0..=M0+8. Oracle: each call returns Ok or MemoryLimitExceeded (never a panic); accounted usage (hook) <= M after every successful call; REAL capacity of parsing buffer + open-element stack (hook) <= M after every successful call; bytes_in - bytes_out <= M in pass-through; success is monotone in M with identical output; same (M, config, schedule) twice gives the same result. non-trivial = distinct (case, M) where the call failed with MemoryLimitExceeded";
 
 #[derive(Clone)]
 struct Case {
@@ -43,6 +43,11 @@ fn one(base: &Prepared, input: &[u8], chunk: usize, m: usize, pre: usize) -> (Ru
         }
         if *usage > m {
             return (rr.clone(), Some(format!("after successful write #{i} the rewriter accounts for {usage} bytes > limit {m}")));
+        }
+    }
+    for (i, (buf, stack)) in rr.real_after.iter().enumerate() {
+        if buf + stack > m {
+            return (rr.clone(), Some(format!("after successful write #{i} the real capacity of the parsing buffer ({buf} bytes) plus the open-element stack ({stack} bytes) exceeds the limit {m} (accounted: {})", rr.mem_after[i].0)));
         }
     }
     if base.cfg.handlers.is_empty() {
@@ -160,6 +165,41 @@ fn growth_cases(quick: bool) -> Vec<Case> {
     v
 }
 
+/// Open-element stack grown, (partly) popped, re-grown, then a token that has to be buffered:
+/// accounting must follow the real capacity through every grow/shrink history. Swept with
+/// preallocation 0 only.
+fn stack_history_cases(quick: bool) -> Vec<Case> {
+    let sel = Cfg::with(vec![HSpec::obs(HKind::Element, "div"), HSpec::obs(HKind::Element, "div > span")]);
+    let sel_text = Cfg::with(vec![HSpec::obs(HKind::Text, "div span"), HSpec::obs_end_tag("div")]);
+    let mut v = vec![];
+    let d1s: &[usize] = if quick { &[9, 17, 33] } else { &[9, 17, 33, 65] };
+    let keeps: &[usize] = if quick { &[1, 5, 9, 16] } else { &[0, 1, 5, 8, 9, 12, 16, 17, 20] };
+    let d2s: &[usize] = if quick { &[0, 9] } else { &[0, 4, 9, 30] };
+    let chunkings: &[usize] = if quick { &[0, 6] } else { &[0, 6, 64] };
+    for &d1 in d1s {
+        for &keep in keeps {
+            if keep >= d1 {
+                continue;
+            }
+            for &d2 in d2s.iter().chain(std::iter::once(&d1)) {
+                let tails = [("unfinished matched tag", format!("<div b=\"{}", "x".repeat(40))), ("unfinished matched tag (attribute name)", format!("<div {}", "x".repeat(40))), ("long matched tag", format!("<div b=\"{}\">t", "x".repeat(40)))];
+                for (ti, (tl, tail)) in tails.iter().enumerate() {
+                    for (ci, cfg) in [&sel, &sel_text].into_iter().enumerate() {
+                        if quick && (ti == 2 || ci != ti % 2) {
+                            continue;
+                        }
+                        for &c in chunkings {
+                            let input = format!("{}{}{}{}", "<div>".repeat(d1), "</div>".repeat(d1 - keep), "<div>".repeat(d2), tail);
+                            v.push(Case { label: format!("stack grown to {d1}, popped to {keep}, re-grown by {d2}, then {tl}"), cfg: cfg.clone(), input: input.into_bytes(), chunk: c });
+                        }
+                    }
+                }
+            }
+        }
+    }
+    v
+}
+
 pub fn replay(case: &Value) -> Option<String> {
     let cfg: Cfg = serde_json::from_value(case["cfg"].clone()).ok()?;
     let input = unhex(case["input_hex"].as_str()?);
@@ -197,6 +237,25 @@ pub fn run_check(ctx: &Ctx) -> i32 {
     if !ctx.capped.load(std::sync::atomic::Ordering::Relaxed) {
         ctx.level_done(&format!("{} growth cases x prealloc{{0,16,M/2}} x every limit 0..M0+64", cases.len()));
     }
+    let hcases = stack_history_cases(ctx.quick());
+    ctx.set_extra("stack_history_cases", json!(hcases.len()));
+    par_for(hcases.len(), 1, |j| {
+        if ctx.over_time() {
+            return;
+        }
+        let case = &hcases[j];
+        let base = Prepared::new(case.cfg.clone()).unwrap();
+        if let Some((msg, _)) = sweep_case(Some(ctx), &base, &case.input, case.chunk, 0, 64, 1 << 17) {
+            let msg = sweep_case(None, &base, &case.input, case.chunk, 0, 64, 1 << 17).map(|x| x.0).unwrap_or(msg);
+            report(ctx, &base, &case.input, case.chunk, 0, msg, &case.label);
+        }
+        if j % 17 == 0 {
+            ctx.sample(json!({"case": case.label, "config": case.cfg.label(), "chunk_size": case.chunk, "input_len": case.input.len()}));
+        }
+    });
+    if !ctx.capped.load(std::sync::atomic::Ordering::Relaxed) {
+        ctx.level_done(&format!("{} stack grow/pop/re-grow histories x every limit 0..M0+64", hcases.len()));
+    }
     // generic tag-soup part
     let none = Prepared::new(Cfg::default().strict(false)).unwrap();
     let all = Prepared::new(Cfg::with(observer_menu().pop().unwrap().1).strict(false)).unwrap();
@@ -232,7 +291,7 @@ pub fn run_check(ctx: &Ctx) -> i32 {
         "fault_enumeration",
         RULE,
         &[
-            "memory accounting is observed through the _verif_hooks accessor HtmlRewriter::verif_memory_usage()",
+            "memory accounting is observed through the _verif_hooks accessor HtmlRewriter::verif_memory_usage(); real Vec capacities through HtmlRewriter::verif_real_capacity()",
             "preallocation is only swept at values <= M (a preallocation above the limit is a documented misconfiguration guarded by a debug assertion)",
             "the limit is the accounting limit; real allocator failure is not injected",
         ],
